@@ -82,6 +82,8 @@ LeafParts ==
      [c |-> 1, t |-> "${10}",    m |-> <<"pe[", "braces", "name:10", "]pe">>],
      [c |-> 1, t |-> "${#v}",    m |-> <<"pe[", "braces", "name:v", "peop:#", "]pe">>],
      [c |-> 1, t |-> "${#}",     m |-> <<"pe[", "braces", "name:#", "]pe">>],
+     [c |-> 1, t |-> "${#%0}",   m |-> <<"pe[", "braces", "name:#", "peop:%", "w[", "lit:0", "]w", "]pe">>],      \* the special parameter # with an operator
+     [c |-> 1, t |-> "${#:-0}",  m |-> <<"pe[", "braces", "name:#", "peop::-", "w[", "lit:0", "]w", "]pe">>],
      [c |-> 1, t |-> "$((1 + 2))", m |-> <<"ae[", "w[", "lit:1", "lit:+", "lit:2", "]w", "]ae">>],
      [c |-> 1, t |-> "$(( $v*(2-1) ))", m |-> <<"ae[", "w[", "pe[", "name:v", "]pe", "lit:*(2-1)", "]w", "]ae">>]
   >>
@@ -311,6 +313,10 @@ Alts(nt) ==
          LET L == NT("pl0", 2, FALSE, TRUE, FALSE, "")
              L1 == NT("pl1", 2, FALSE, TRUE, FALSE, "")
              I == NT("pi0", 2, FALSE, TRUE, FALSE, "")
+             A0 == <<M("ao["), M("pl["), M("c["), M("simple["), T("a")>> \o WLit("a") \o <<M("]simple"), M("]c"), M("]pl"), M("]ao")>>
+             SubC == <<M("ao["), M("pl["), M("c["), TL("("), M("sub["), M("ln[")>> \o A0 \o <<M("]ln"), T(")"), M("]sub"), M("]c"), M("]pl"), M("]ao")>>
+             GrpC == <<M("ao["), M("pl["), M("c["), TL("{"), M("grp["), M("ln["), M("ao["), M("pl["), M("c["), M("simple["), T("a")>> \o WLit("a")
+                     \o <<M("]simple"), M("]c"), M("]pl"), TS(";"), M("sep:;"), M("]ao"), M("]ln"), T("}"), M("]grp"), M("]c"), M("]pl"), M("]ao")>>
              Wrap(r) == <<M("ln["), M("ao["), M("pl["), M("c[")>> \o r \o <<M("]c"), M("]pl"), M("]ao"), M("]ln"), NLF>>
              If(e) == <<TL("if"), M("if["), M("cond["), L, M("]cond"), TL("then"), M("then["), L, M("]then")>> \o e \o <<T("fi"), M("]if")>>
          IN
@@ -327,6 +333,16 @@ Alts(nt) ==
                         TL("do"), M("do["), L, M("]do"), T("done"), M("]for")>>)),
             A(1, Wrap(<<T("for"), M("for["), T("x"), M("name:x"), NLB, TL("do"), M("do["), L, M("]do"), T("done"), M("]for")>>)),
             A(1, Wrap(<<TL("{"), M("grp["), L1, T("}"), M("]grp")>>)),
+            \* a compound command directly in front of the closer of the enclosing one: no separator is needed
+            A(1, Wrap(<<TL("{"), M("grp["), M("ln[")>> \o SubC \o <<M("]ln"), T("}"), M("]grp")>>)),
+            A(1, Wrap(<<TL("if"), M("if["), M("cond["), L, M("]cond"), TL("then"), M("then["), M("ln[")>> \o SubC \o <<M("]ln"), M("]then"), T("fi"), M("]if")>>)),
+            A(1, Wrap(<<TL("while"), M("while["), M("cond["), L, M("]cond"), TL("do"), M("do["), M("ln[")>> \o GrpC \o <<M("]ln"), M("]do"), T("done"), M("]while")>>)),
+            A(1, Wrap(<<T("case"), M("case["), T("a")>> \o WLit("a") \o <<TL("in"), M("item["), M("pats["), T("p*")>> \o WLit("p*") \o <<M("]pats"), TL(")"), M("ln[")>> \o SubC
+                      \o <<M("]ln"), M("]item"), T("esac"), M("]case")>>)),
+            A(1, Wrap(<<TL("("), M("sub["), M("ln[")>> \o GrpC \o <<M("]ln"), T(")"), M("]sub")>>)),
+            \* ( esac | a ): a first pattern that spells esac, followed by another pattern
+            A(1, Wrap(<<T("case"), M("case["), T("a")>> \o WLit("a") \o <<TL("in"), M("item["), T("("), M("op:("), M("pats["), T("esac")>> \o WLit("esac") \o <<T("|"), T("a")>> \o WLit("a")
+                      \o <<M("]pats"), TL(")"), NT("pb0", 2, FALSE, TRUE, FALSE, ""), TL(";;"), M("op:;;"), M("]item"), T("esac"), M("]case")>>)),
             A(1, Wrap(<<TL("("), M("sub["), L1, T(")"), M("]sub")>>)) >>
     [] nt.n = "list" ->   \* and-or lists joined by ; or &; the last one carries nt.end
          << A(0, <<SameE(nt, "ao", nt.end)>>),
